@@ -259,6 +259,17 @@ package syntax
 //@ spec func RangesValid(rs []SingleRange) bool = forall i int :: 0 <= i && i < len(rs) ==> 0 <= rs[i].First && rs[i].First <= rs[i].Last
 //@ spec func CatsKnown(cats []Category) bool = forall i int :: 0 <= i && i < len(cats) ==> CatKnown(cats[i].Cat)
 
+// A copy is the same class: same flags (the parser's sense, the `inverted` marker canonicalize leaves behind, which
+// restore() needs before anything is added), the same ranges and categories in the same order, a subtracted class
+// exactly when the original has one. The IgnoreCase closure is computed on a copy, so a field lost here changes
+// membership only under IgnoreCase.
+//@ func (c CharSet) Copy() (ret CharSet)
+//@   props C16 C20
+//@   ensures[flags]  ret.anything == c.anything && ret.negate == c.negate && ret.inverted == c.inverted
+//@   ensures[ranges] len(ret.ranges) == len(c.ranges) && forall i int :: 0 <= i && i < len(c.ranges) ==> ret.ranges[i].First == c.ranges[i].First && ret.ranges[i].Last == c.ranges[i].Last
+//@   ensures[cats]   len(ret.categories) == len(c.categories) && forall i int :: 0 <= i && i < len(c.categories) ==> ret.categories[i].Cat == c.categories[i].Cat && ret.categories[i].Negate == c.categories[i].Negate
+//@   ensures[sub]    (ret.sub == nil) == (c.sub == nil)
+
 // sort.Sort on the range sorter: a permutation ordered by First (trusted library contract, specific to singleRangeSorter)
 //@ lib func sort.Sort(data []SingleRange)
 //@   modifies data[*]
